@@ -77,11 +77,40 @@ def monitor(sc, res):
     return fails
 
 
+def duplicated_history_cases(ctx):
+    """a nested history that exists twice below one root (a card and its copy, ascmhl folder included): the manifests have
+    the same names and, until one is edited, the same bytes - each copy is still checked against its own chain.
+    Runs on the implementation only (the model has no copy operation)."""
+    from .. import pool
+    rnd = random.Random(ctx.seed * 31 + 55)
+    scs = []
+    for i in range(ctx.scale(16, 200)):
+        tree = {"card/a.txt": "alpha", "card/s/b.txt": "beta", "top.txt": "t"}
+        ops = [{"op": "create", "at": "card", "h": ["md5"], "now": "2026-03-01 12:00:01"}]
+        if rnd.random() < 0.5:
+            ops.append({"op": "create", "at": "card", "h": ["sha1"], "now": "2026-03-01 12:00:02"})
+        copy = rnd.choice(["card copy", "backup/card", "z"])
+        ops.append({"op": "cptree", "src": "card", "dst": copy})
+        if rnd.random() < 0.7:
+            ops.append({"op": "create", "at": "", "h": ["md5"], "now": "2026-03-01 12:00:03"})
+        victim = rnd.choice(["card", copy])
+        edit = rnd.choice(["flip", "insert", "delete", "append", "remove"])
+        ops.append({"op": "tamper", "hist": victim, "gen": rnd.randint(0, 3), "kind": edit, "pos": rnd.randint(0, 10**6), "bit": rnd.randint(0, 7), "keep_mtime": True})
+        cmd = rnd.choice(COMMANDS)
+        c = {"create": {"op": "create", "at": "", "h": ["md5"], "now": "2026-03-01 12:30:00"}, "create_sf": {"op": "create", "at": "", "h": ["md5"], "sf": ["top.txt"], "now": "2026-03-01 12:30:00"},
+             "verify": {"op": "verify", "at": ""}, "verifydh": {"op": "verifydh", "at": ""}, "diff": {"op": "diff", "at": ""}, "info": {"op": "info", "at": ""},
+             "infosf": {"op": "infosf", "at": "", "file": "top.txt"}, "flatten": {"op": "flatten", "at": ""}}[cmd]
+        ops.append(c)
+        scs.append({"seed": i, "profile": "c05-duplicate", "root": "root", "tree": tree, "ops": ops, "c05": {"hist": victim, "edit": edit, "cmd": cmd, "expect": 33 if edit == "remove" else 31}})
+    r = pool.run_pool(scs, monitor=monitor, with_model=False)
+    return r["fails"]
+
+
 def run(ctx):
     n = ctx.scale(260, 4000)
     scs = [build(ctx.seed * 1000721 + i) for i in range(n)]
     combos = {(s["c05"]["edit"], s["c05"]["cmd"], s["c05"]["hist"] != "") for s in scs}
-    return _scn.run_scn(ctx, scs, monitor, nontrivial=lambda scs: len({(s.get("c05", {}).get("edit"), s.get("c05", {}).get("cmd"), s.get("c05", {}).get("hist")) for s in scs}),
+    return _scn.run_scn(ctx, scs, monitor, extra_fails=duplicated_history_cases(ctx), nontrivial=lambda scs: len({(s.get("c05", {}).get("edit"), s.get("c05", {}).get("cmd"), s.get("c05", {}).get("hist")) for s in scs}),
         extra_cov={"edit_x_command_x_nested_combinations": len(combos), "of": len(EDITS) * len(COMMANDS) * 2},
         rule="one evaluation = build a (nested) multi-generation history, damage ONE manifest or chain file (edit kind x position), run ONE history-reading command; distinct = distinct (edit kind, command, history) triples; snapshot of the whole tree before/after",
         assumptions=["a single fault per scenario (so the exit code is determined)", "the edited bytes differ from the original (by construction), so their SHA-512/C4 differs (observed: the tool reports 31)"])
